@@ -25,7 +25,8 @@ import RuxModel.Model.Rest
                                                     (lookup of Model/Rest.lean: only for tables of REST shape, engine `rest`)
 
   <arg>  = `-` | tags[`+`spare] | `@`bid`:`lo`:`hi      (spare capacity only matters on the Go side)
-  <pre>/<post> = `-` | call(`/`call)*,  call = `e` (a Use call without arguments) | <arg>
+  <pre>/<post> = `-` | call(`/`call)*,  call = [`~`] (`e` (a Use call without arguments) | <arg>)
+                 `~` in <post>: the Go side makes this Route.Use call at the end of the run
   paths, prefixes, names: hex.   A stray `end` is ignored, open groups are closed by `run`.
 -/
 namespace Rux.Drv
@@ -59,7 +60,11 @@ def parseArg (bufs : List (Nat × List H)) (s : String) : Option (List H) :=
 
 def parseUses (bufs : List (Nat × List H)) (s : String) : Option (List (List H)) :=
   if s = "-" then some []
-  else (s.splitOn "/").mapM fun c => if c = "e" then some [] else parseArg bufs c
+  else (s.splitOn "/").mapM fun c =>
+    -- `~call`: the harness makes this `Route.Use` call only after the rest of the program has run;
+    -- for the lists it is the same append
+    let c := if c.startsWith "~" then (c.drop 1).toString else c
+    if c = "e" then some [] else parseArg bufs c
 
 def parseMethods (s : String) : List Bytes :=
   -- `formatMethodsWithDefault`: no method = GET
